@@ -10,6 +10,7 @@ use std::sync::atomic::{AtomicUsize, Ordering};
 use vh_alloc as la;
 
 mod gen;
+mod recycle;
 
 #[global_allocator]
 static GLOBAL: la::Ledger = la::Ledger;
@@ -894,6 +895,7 @@ fn main() {
     let mut par_override: Option<u8> = None;
     let mut profile = String::from("mixed");
     let mut adj_every: usize = 5;
+    let mut recycle_file: Option<String> = None;
     let mut i = 1;
     while i < args.len() {
         match args[i].as_str() {
@@ -934,6 +936,10 @@ fn main() {
                 par_override = Some(args[i + 1].parse().unwrap());
                 i += 1;
             }
+            "--recycle" => {
+                recycle_file = Some(args[i + 1].clone());
+                i += 1;
+            }
             "--adjacent-every" => {
                 adj_every = args[i + 1].parse().unwrap();
                 i += 1;
@@ -953,6 +959,35 @@ fn main() {
     let f = std::fs::OpenOptions::new().create(true).append(true).open(&outp).expect("open out");
     let mut m = Machine::new();
     m.sink = Some(f);
+    if let Some(rf) = recycle_file {
+        let text = std::fs::read_to_string(&rf).expect("read patterns");
+        let mut out = String::new();
+        for (pi, line) in text.lines().enumerate() {
+            if line.trim().is_empty() {
+                continue;
+            }
+            let v: serde_json::Value = serde_json::from_str(line).expect("pattern json");
+            let us = |k: &str| -> Vec<usize> { v[k].as_array().map(|a| a.iter().filter_map(|x| x.as_u64()).map(|x| x as usize).collect()).unwrap_or_default() };
+            let p = recycle::Pattern {
+                pid: pi,
+                cap0: v["cap0"].as_u64().unwrap_or(0) as usize,
+                msgs: us("msgs"),
+                takes: us("takes"),
+                mode: v["mode"].as_str().unwrap_or("split_to").to_string(),
+                freeze: v["freeze"].as_bool().unwrap_or(false),
+                roundtrip: v["roundtrip"].as_u64().unwrap_or(0),
+                unsplit: v["unsplit"].as_bool().unwrap_or(false),
+                window: v["window"].as_u64().unwrap_or(0) as usize,
+                reserve_extra: v["reserve_extra"].as_u64().unwrap_or(0) as usize,
+                n: v["n"].as_u64().unwrap_or(1000),
+            };
+            out.clear();
+            recycle::run(&p, &mut out);
+            m.out.push_str(&out);
+            m.flush();
+        }
+        return;
+    }
     // progress marker for the driver: "<pid> <event-no>" of the op about to run is implied by
     // the number of complete lines written; we flush after every program and, in crash-prone
     // runs, the driver restarts us with --start.
